@@ -10,9 +10,15 @@
       ordered table, and `ok` when none fails (completeness of the guard chain, by case analysis)
   All statements are universally quantified over the abstract inputs: request parameters, event shape
   facts, and arbitrary answers of the verifier / queriers / template builder / Allowed oracle.
+
+  Requesting side of the invite handshake (VModel.HandshakeInvite): `performInvite_ok_implies_guards`,
+  `performInvite_decision_table`, `performInvite_no_panic`; pseudo-ID path of HandleSendJoin:
+  `sendJoinPseudo_ok_implies_guards`, `sendJoinPseudo_decision_table`.
 -/
 import VModel.Handshake
 import VModel.HandshakeSpec
+import VModel.HandshakeInvite
+import VModel.HandshakeInviteSpec
 namespace V.C15
 open V V.Handshake V.Handshake.Spec
 
@@ -811,5 +817,848 @@ theorem inviteV3_decision_table (i : InviteV3In) :
   cases hs : i.invitedSenderID with
   | none => simp
   | some sid => cases hb : (!i.buildOK) <;> simp
+
+/-! ## PerformInvite (requesting side of the invite handshake)
+
+  `performInvite_ok_implies_guards` : a returned event ⇒ every guard passed (`performInviteGuards`), and what
+      the returned / signed event is in each of the four branches — in particular, in pseudo-ID rooms the
+      inviter's key signs the remote's answer only if it is the invite asked for (`isInviteFor`: the checks of
+      /repo f453bb3), and the event that was auth-checked is the one that is signed and returned;
+  `performInvite_decision_table`   : the outcome is the error (or panic) of the FIRST failing row of an explicit
+      ordered table, `ok` with the stated result when none fails;
+  `performInvite_no_panic`         : with the caller's side of the contract kept (`piContractOK`) no answer of
+      the remote server — nil, not an invite, no state key, other room / sender, bad signatures — and no
+      answer of a querier leads to a panic outcome. -/
+
+/-- outcome of an ordered guard table with errors of any type: the first failing row, else the result -/
+def ffE {ε α : Type} (table : List (Bool × ε)) (out : α) : Except ε α :=
+  match table.find? (·.1) with
+  | some (_, e) => .error e
+  | none => .ok out
+
+theorem ffE_nil {ε α : Type} (out : α) : ffE ([] : List (Bool × ε)) out = .ok out := rfl
+
+theorem ffE_cons {ε α : Type} (c : Bool) (e : ε) (t : List (Bool × ε)) (out : α) :
+    ffE ((c, e) :: t) out = if c then .error e else ffE t out := by
+  cases c <;> simp [ffE, List.find?]
+
+theorem ffE_append {ε α : Type} (t1 t2 : List (Bool × ε)) (out : α) :
+    ffE (t1 ++ t2) out = match ffE t1 () with
+      | .error e => .error e
+      | .ok () => ffE t2 out := by
+  induction t1 with
+  | nil => simp [ffE_nil]
+  | cons r t ih =>
+    obtain ⟨c, e⟩ := r
+    cases c
+    · simpa [ffE_cons] using ih
+    · simp [ffE_cons]
+
+theorem ffE_cons_true {ε α : Type} {c : Bool} (h : c = true) (e : ε) (t : List (Bool × ε)) (out : α) :
+    ffE ((c, e) :: t) out = .error e := by rw [ffE_cons, h]; rfl
+
+theorem ffE_cons_false {ε α : Type} {c : Bool} (h : c = false) (e : ε) (t : List (Bool × ε)) (out : α) :
+    ffE ((c, e) :: t) out = ffE t out := by rw [ffE_cons, h]; rfl
+
+/-- the result carried by a table does not influence which row fails -/
+theorem ffE_value {ε α β : Type} {t : List (Bool × ε)} {a : α} (b : β) :
+    ffE t b = match ffE t a with | .error e => .error e | .ok _ => .ok b := by
+  unfold ffE
+  split <;> rfl
+
+theorem ffE_ok {ε α : Type} {t : List (Bool × ε)} {out o : α} (h : ffE t out = .ok o) :
+    (∀ r ∈ t, r.1 = false) ∧ o = out := by
+  induction t with
+  | nil => simp [ffE_nil] at h; simp [h]
+  | cons r t ih =>
+    obtain ⟨c, e⟩ := r
+    cases c
+    · rw [ffE_cons_false rfl] at h
+      obtain ⟨h1, h2⟩ := ih h
+      refine ⟨?_, h2⟩
+      intro r hr
+      cases hr with
+      | head => rfl
+      | tail _ hr' => exact h1 r hr'
+    · rw [ffE_cons_true rfl] at h; cases h
+
+theorem ffE_error {ε α : Type} {t : List (Bool × ε)} {out : α} {e : ε} (h : ffE t out = .error e) :
+    ∃ r ∈ t, r.1 = true ∧ r.2 = e := by
+  induction t with
+  | nil => simp [ffE_nil] at h
+  | cons r t ih =>
+    obtain ⟨c, e'⟩ := r
+    cases c
+    · rw [ffE_cons_false rfl] at h
+      obtain ⟨r, hr, h1⟩ := ih h
+      exact ⟨r, List.mem_cons_of_mem _ hr, h1⟩
+    · rw [ffE_cons_true rfl] at h
+      cases h
+      exact ⟨(true, e), List.mem_cons_self, rfl, rfl⟩
+
+/-! ### preparation of the template -/
+
+def nilQuerier (i : PerformInviteIn) : Bool :=
+  i.membershipQuerierNil || i.stateQuerierNil || i.userIDQuerierNil || i.senderIDQuerierNil
+    || i.senderIDCreatorNil || i.eventQuerierNil
+
+def stateQueryFails (i : PerformInviteIn) : Bool :=
+  i.strippedGiven == 0 && (match i.stateQuery with | .err => true | .ans _ => false)
+
+def strippedLenOf (i : PerformInviteIn) : Nat :=
+  if i.strippedGiven == 0 then (match i.stateQuery with | .err => 0 | .ans n => n) else i.strippedGiven
+
+def senderIDFails (i : PerformInviteIn) : Bool := match i.invitedSenderID with | .err => true | .ans _ => false
+def hasSenderID (i : PerformInviteIn) : Bool := match i.invitedSenderID with | .ans (some _) => true | _ => false
+
+def neededOf (i : PerformInviteIn) : StateRes.Needed := i.needed.getD {}
+def latestFails (i : PerformInviteIn) : Bool := match i.latest with | .err => true | .ans _ => false
+def latestOf (i : PerformInviteIn) : Latest := match i.latest with | .err => default | .ans l => l
+
+/-- the rows of the `AddEvent` loop: one per state event, in order -/
+def stateRows (l : List (Option StateEv)) : List (Bool × PErr) :=
+  l.map (fun e => match e with
+    | none => (true, PErr.panic siteNilState)
+    | some ev => (ev.stateKey.isNone, pOther))
+
+/-- the `*AuthEvents` map of a list of proper state events -/
+def authMapOf (l : List (Option StateEv)) : AuthMap :=
+  l.filterMap (fun e => match e with
+    | some ev => ev.stateKey.map (fun sk => ((ev.type, sk), ev.eventID))
+    | none => none)
+
+theorem addEvents_table (l : List (Option StateEv)) (m : AuthMap) :
+    addEvents l m = ffE (stateRows l) (m ++ authMapOf l) := by
+  induction l generalizing m with
+  | nil => simp [addEvents, stateRows, authMapOf, ffE_nil]
+  | cons e rest ih =>
+    cases e with
+    | none => simp [addEvents, stateRows, ffE_cons]
+    | some ev =>
+      cases hsk : ev.stateKey with
+      | none => simp [addEvents, stateRows, ffE_cons, hsk]
+      | some sk =>
+        have := ih (m ++ [((ev.type, sk), ev.eventID)])
+        simp [addEvents, stateRows, ffE_cons, hsk, authMapOf] at this ⊢
+        simpa [stateRows, authMapOf] using this
+
+def prepTable (i : PerformInviteIn) : List (Bool × PErr) :=
+  (nilQuerier i, .panic siteQuerier) ::
+  (i.ctxNil, .panic siteContext) ::
+  (stateQueryFails i, pInternal) ::                               -- GenerateStrippedState
+  (!i.unsignedOK, pOther) ::                                       -- setUnsignedFieldForProtoInvite
+  (!i.versionKnown, pUnsupported) ::
+  (senderIDFails i, pOther) ::                                     -- SenderIDQuerier
+  (hasSenderID i && i.curMembership.isNone, pInternal) ::          -- abortIfAlreadyJoined
+  (hasSenderID i && i.curMembership == some b!"join", pForbidden) ::
+  (i.needed.isNone, pOther) ::                                     -- StateNeededForProtoEvent
+  ((AuthNeeded.neededPairs (neededOf i)).isEmpty, pInternal) ::
+  (latestFails i, pOther) ::                                       -- EventQuerier
+  (!(latestOf i).roomExists, pInternal) ::
+  stateRows (latestOf i).stateEvents                               -- authEvents.AddEvent, per event
+
+def prepValue (i : PerformInviteIn) : Prepared :=
+  let l := latestOf i
+  let tp := truncateAuthAndPrev (authRefs (authMapOf l.stateEvents) (piAsked i.domainless (neededOf i))) l.prevEventIDs
+  { authEvents := tp.1, prevEvents := tp.2, depth := l.depth, strippedLen := strippedLenOf i }
+
+theorem piStateLen_eq (i : PerformInviteIn) :
+    piStateLen i = if stateQueryFails i then .error pInternal else .ok (strippedLenOf i) := by
+  unfold piStateLen stateQueryFails strippedLenOf
+  cases h0 : (i.strippedGiven == 0) <;> cases i.stateQuery <;> simp
+
+theorem piNotJoined_eq (i : PerformInviteIn) :
+    piNotJoined i = ffE [ (senderIDFails i, pOther), (hasSenderID i && i.curMembership.isNone, pInternal),
+                          (hasSenderID i && i.curMembership == some b!"join", pForbidden) ] () := by
+  unfold piNotJoined senderIDFails hasSenderID
+  cases i.invitedSenderID with
+  | err => simp [ffE_cons]
+  | ans s =>
+    cases s with
+    | none => simp [ffE_cons, ffE_nil]
+    | some sid =>
+      cases i.curMembership with
+      | none => simp [ffE_cons]
+      | some cur => cases hj : (cur == b!"join") <;> simp_all [ffE_cons, ffE_nil]
+
+theorem piPrepare_table (i : PerformInviteIn) : piPrepare i = ffE (prepTable i) (prepValue i) := by
+  unfold piPrepare prepTable
+  cases hq : (i.membershipQuerierNil || i.stateQuerierNil || i.userIDQuerierNil || i.senderIDQuerierNil
+      || i.senderIDCreatorNil || i.eventQuerierNil)
+  case true => rw [ffE_cons_true (show nilQuerier i = true from hq)]; rfl
+  rw [ffE_cons_false (show nilQuerier i = false from hq)]
+  cases hc : i.ctxNil
+  case true => rw [ffE_cons_true rfl]; rfl
+  rw [ffE_cons_false rfl]
+  simp only [Bool.false_eq_true, if_false]
+  rw [piStateLen_eq]
+  cases h3 : stateQueryFails i
+  case true => rw [ffE_cons_true rfl]; rfl
+  rw [ffE_cons_false rfl]
+  simp only [Bool.false_eq_true, if_false]
+  cases h4 : i.unsignedOK
+  case false => simp only [Bool.not_false]; rw [ffE_cons_true rfl]; rfl
+  simp only [Bool.not_true]
+  rw [ffE_cons_false rfl]
+  cases h5 : i.versionKnown
+  case false => simp only [Bool.not_false]; rw [ffE_cons_true rfl]; rfl
+  simp only [Bool.not_true]
+  rw [ffE_cons_false rfl]
+  simp only [Bool.false_eq_true, if_false]
+  have hnj := piNotJoined_eq i
+  rw [hnj]
+  cases h6 : senderIDFails i
+  case true => rw [ffE_cons_true rfl, ffE_cons_true rfl]
+  rw [ffE_cons_false rfl, ffE_cons_false rfl]
+  cases h7 : (hasSenderID i && i.curMembership.isNone)
+  case true => rw [ffE_cons_true rfl, ffE_cons_true rfl]
+  rw [ffE_cons_false rfl, ffE_cons_false rfl]
+  cases h8 : (hasSenderID i && i.curMembership == some b!"join")
+  case true => rw [ffE_cons_true rfl, ffE_cons_true rfl]
+  rw [ffE_cons_false rfl, ffE_cons_false rfl, ffE_nil]
+  simp only
+  cases h9 : i.needed with
+  | none => rw [ffE_cons_true (show (none : Option StateRes.Needed).isNone = true from rfl)]
+  | some nd =>
+    rw [ffE_cons_false (show (some nd).isNone = false from rfl)]
+    have hnd : neededOf i = nd := by simp [neededOf, h9]
+    rw [hnd]
+    simp only
+    cases h10 : (AuthNeeded.neededPairs nd).isEmpty
+    case true => rw [ffE_cons_true rfl]; rfl
+    rw [ffE_cons_false rfl]
+    simp only [Bool.false_eq_true, if_false]
+    cases h11 : i.latest with
+    | err => rw [ffE_cons_true (by simp [latestFails, h11])]
+    | ans l =>
+      rw [ffE_cons_false (by simp [latestFails, h11])]
+      have hl : latestOf i = l := by simp [latestOf, h11]
+      rw [hl]
+      simp only
+      cases h12 : l.roomExists
+      case false => simp only [Bool.not_false]; rw [ffE_cons_true rfl]; rfl
+      simp only [Bool.not_true]
+      rw [ffE_cons_false rfl]
+      simp only [Bool.false_eq_true, if_false]
+      rw [addEvents_table, List.nil_append, ffE_value (a := authMapOf l.stateEvents) (prepValue i)]
+      cases hf : ffE (stateRows l.stateEvents) (authMapOf l.stateEvents) with
+      | error e => rfl
+      | ok m =>
+        have hm : m = authMapOf l.stateEvents := by
+          unfold ffE at hf
+          split at hf
+          · cases hf
+          · cases hf; rfl
+        simp only [prepValue, hl, hnd, hm]
+
+
+/-! ### the four branches -/
+
+def checkAllowedRows (i : PerformInviteIn) (e : EvFacts) : List (Bool × PErr) :=
+  [(!i.authProviderOK, pForbidden),      -- StateQuerier.GetAuthEvents
+   (!i.allowed e, pForbidden)]           -- Allowed
+
+theorem piCheckAllowed_eq (i : PerformInviteIn) (e : EvFacts) :
+    piCheckAllowed i e = ffE (checkAllowedRows i e) () := by
+  unfold piCheckAllowed checkAllowedRows
+  cases i.authProviderOK <;> cases i.allowed e <;> rfl
+
+def sendV3Fails (i : PerformInviteIn) : Bool := match i.sendV3 with | .err => true | .ans _ => false
+def v3Of (i : PerformInviteIn) : Option EvFacts := match i.sendV3 with | .ans r => r | .err => none
+def v3Event (i : PerformInviteIn) : EvFacts := (v3Of i).getD default
+def sendV2Fails (i : PerformInviteIn) : Bool := match i.sendV2 with | .err => true | .ans _ => false
+def v2Of (i : PerformInviteIn) : Option EvFacts := match i.sendV2 with | .ans r => r | .err => none
+
+def createdOf (i : PerformInviteIn) : Bytes := i.createdSenderID.getD []
+
+def pseudoLocalTable (i : PerformInviteIn) : List (Bool × PErr) :=
+  (i.createdSenderID.isNone, pOther) ::                               -- SenderIDCreator
+  (!i.buildOK, pInternal) ::                                          -- EventBuilder.Build
+  (!i.verifyOK (builtEvent i (createdOf i)), pForbidden) ::           -- VerifyEventSignatures (JSONVerifierSelf)
+  checkAllowedRows i (builtEvent i (createdOf i))
+
+def pseudoLocalResult (i : PerformInviteIn) (p : Prepared) : PIOut :=
+  mkOut p .builtLocal (some (builtEvent i (createdOf i))) (builtEvent i (createdOf i))
+    [⟨createdOf i, pseudoKeyID⟩, ⟨i.origin, pseudoKeyID⟩]
+
+theorem piPseudoLocal_table (i : PerformInviteIn) (p : Prepared) :
+    piPseudoLocal i p = ffE (pseudoLocalTable i) (pseudoLocalResult i p) := by
+  unfold piPseudoLocal pseudoLocalTable pseudoLocalResult createdOf
+  cases hc : i.createdSenderID with
+  | none => rw [ffE_cons_true (show (none : Option Bytes).isNone = true from rfl)]
+  | some sid =>
+    rw [ffE_cons_false (show (some sid).isNone = false from rfl)]
+    simp only [Option.getD_some]
+    cases hb : i.buildOK
+    case false => simp only [Bool.not_false]; rw [ffE_cons_true rfl]; rfl
+    simp only [Bool.not_true]
+    rw [ffE_cons_false rfl]
+    simp only [Bool.false_eq_true, if_false]
+    cases hv : i.verifyOK (builtEvent i sid)
+    case false => simp only [Bool.not_false]; rw [ffE_cons_true rfl]; rfl
+    simp only [Bool.not_true]
+    rw [ffE_cons_false rfl]
+    simp only [Bool.false_eq_true, if_false]
+    rw [piCheckAllowed_eq, ffE_value (a := ()) (mkOut p PISource.builtLocal _ _ _)]
+    cases ffE (checkAllowedRows i (builtEvent i sid)) () <;> rfl
+
+/-- the rows of /repo f453bb3, on the event SendInviteV3 returned -/
+def v3Rows (i : PerformInviteIn) : List (Bool × PErr) :=
+  [((v3Of i).isNone, pForbidden),                                                                   -- a nil PDU
+   ((v3Event i).type != b!"m.room.member" || (v3Event i).stateKey.isNone, pForbidden),              -- not a membership state event
+   ((v3Event i).membership != some b!"invite", pForbidden),                                         -- not an invite
+   ((v3Event i).roomID != i.tRoomID || (v3Event i).senderID != i.tSenderID, pForbidden)]            -- another room or sender
+
+theorem v3Checks_eq (i : PerformInviteIn) : v3Checks i (v3Of i) = ffE (v3Rows i) (v3Event i) := by
+  unfold v3Checks v3Rows v3Event
+  cases hr : v3Of i with
+  | none => rfl
+  | some e =>
+    simp only [Option.getD_some]
+    rw [ffE_cons_false (show (some e).isNone = false from rfl)]
+    cases h1 : (e.type != b!"m.room.member" || e.stateKey.isNone)
+    case true => rw [ffE_cons_true rfl]; rfl
+    rw [ffE_cons_false rfl]
+    cases h2 : (e.membership != some b!"invite")
+    case true => rw [ffE_cons_true rfl]; rfl
+    rw [ffE_cons_false rfl]
+    cases h3 : (e.roomID != i.tRoomID || e.senderID != i.tSenderID)
+    case true => rw [ffE_cons_true rfl]; rfl
+    rw [ffE_cons_false rfl, ffE_nil]
+    rfl
+
+def pseudoRemoteTable (i : PerformInviteIn) : List (Bool × PErr) :=
+  (i.fedClientNil, .panic siteFedV3) ::
+  (sendV3Fails i, pForbidden) ::                                      -- fedClient.SendInviteV3
+  (v3Rows i ++
+   (!i.verifyOK (v3Event i), pForbidden) ::                           -- VerifyEventSignatures (JSONVerifierSelf)
+   (i.storeSenderIDNil, .panic siteStore) ::
+   (!i.storeOK, pInternal) ::                                         -- StoreSenderIDFromPublicID
+   checkAllowedRows i (v3Event i))
+
+def pseudoRemoteResult (i : PerformInviteIn) (p : Prepared) : PIOut :=
+  mkOut p .remoteV3 (some (v3Event i)) (v3Event i) [⟨i.origin, pseudoKeyID⟩]
+
+theorem piPseudoRemote_table (i : PerformInviteIn) (p : Prepared) :
+    piPseudoRemote i p = ffE (pseudoRemoteTable i) (pseudoRemoteResult i p) := by
+  unfold piPseudoRemote pseudoRemoteTable pseudoRemoteResult
+  cases hf : i.fedClientNil
+  case true => rw [ffE_cons_true rfl]; rfl
+  rw [ffE_cons_false rfl]
+  simp only [Bool.false_eq_true, if_false]
+  cases hs : i.sendV3 with
+  | err => rw [ffE_cons_true (by simp [sendV3Fails, hs])]
+  | ans r =>
+    rw [ffE_cons_false (by simp [sendV3Fails, hs])]
+    have hr : v3Of i = r := by simp [v3Of, hs]
+    simp only
+    rw [← hr, v3Checks_eq, ffE_append, ffE_value (a := ()) (v3Event i)]
+    cases ffE (v3Rows i) () with
+    | error e => rfl
+    | ok u =>
+      simp only
+      cases hv : i.verifyOK (v3Event i)
+      case false => simp only [Bool.not_false]; rw [ffE_cons_true rfl]; rfl
+      simp only [Bool.not_true]
+      rw [ffE_cons_false rfl]
+      simp only [Bool.false_eq_true, if_false]
+      cases hn : i.storeSenderIDNil
+      case true => rw [ffE_cons_true rfl]; rfl
+      rw [ffE_cons_false rfl]
+      simp only [Bool.false_eq_true, if_false]
+      cases hst : i.storeOK
+      case false => simp only [Bool.not_false]; rw [ffE_cons_true rfl]; rfl
+      simp only [Bool.not_true]
+      rw [ffE_cons_false rfl]
+      simp only [Bool.false_eq_true, if_false]
+      rw [piCheckAllowed_eq, ffE_value (a := ()) (mkOut p PISource.remoteV3 _ _ _)]
+      cases ffE (checkAllowedRows i (v3Event i)) () <;> rfl
+
+def defaultSigs (i : PerformInviteIn) : List Signed := [⟨i.inviterDomain, i.keyID⟩, ⟨i.inviteeDomain, i.keyID⟩]
+
+def defaultTable (i : PerformInviteIn) : List (Bool × PErr) :=
+  (!i.buildReachesSign, pInternal) ::                                 -- EventBuilder.Build, before signing
+  (!i.signingKeyOK, .panic siteKey) ::
+  (!i.buildOK, pInternal) ::                                          -- EventBuilder.Build
+  (checkAllowedRows i (builtEvent i i.inviteeUserID) ++
+   (if i.targetLocal then [] else
+     [(i.fedClientNil, .panic siteFedV2),
+      (sendV2Fails i, pForbidden)]))                                  -- fedClient.SendInvite
+
+def defaultResult (i : PerformInviteIn) (p : Prepared) : PIOut :=
+  if i.targetLocal then mkOut p .builtLocal (some (builtEvent i i.inviteeUserID)) (builtEvent i i.inviteeUserID) (defaultSigs i)
+  else mkOut p .remoteV2 (v2Of i) (builtEvent i i.inviteeUserID) (defaultSigs i)
+
+theorem piDefault_table (i : PerformInviteIn) (p : Prepared) :
+    piDefault i p = ffE (defaultTable i) (defaultResult i p) := by
+  unfold piDefault defaultTable defaultResult defaultSigs
+  cases h1 : i.buildReachesSign
+  case false => simp only [Bool.not_false]; rw [ffE_cons_true rfl]; rfl
+  simp only [Bool.not_true]
+  rw [ffE_cons_false rfl]
+  simp only [Bool.false_eq_true, if_false]
+  cases h2 : i.signingKeyOK
+  case false => simp only [Bool.not_false]; rw [ffE_cons_true rfl]; rfl
+  simp only [Bool.not_true]
+  rw [ffE_cons_false rfl]
+  simp only [Bool.false_eq_true, if_false]
+  cases h3 : i.buildOK
+  case false => simp only [Bool.not_false]; rw [ffE_cons_true rfl]; rfl
+  simp only [Bool.not_true]
+  rw [ffE_cons_false rfl]
+  simp only [Bool.false_eq_true, if_false]
+  rw [piCheckAllowed_eq, ffE_append]
+  cases ffE (checkAllowedRows i (builtEvent i i.inviteeUserID)) () with
+  | error e => rfl
+  | ok u =>
+    simp only
+    cases ht : i.targetLocal
+    case true => simp only [if_true]; rw [ffE_nil]
+    simp only [Bool.false_eq_true, if_false]
+    cases hf : i.fedClientNil
+    case true => rw [ffE_cons_true rfl]; rfl
+    rw [ffE_cons_false rfl]
+    simp only [Bool.false_eq_true, if_false]
+    cases hs : i.sendV2 with
+    | err => rw [ffE_cons_true (by simp [sendV2Fails, hs])]
+    | ans r => rw [ffE_cons_false (by simp [sendV2Fails, hs]), ffE_nil]; simp [v2Of, hs]
+
+/-- the rows after the template is prepared: `switch input.RoomVersion` -/
+def branchTable (i : PerformInviteIn) : List (Bool × PErr) :=
+  if i.pseudoIDs then
+    (!i.signingKeyOK, .panic siteKey) ::                              -- spec.SenderIDFromPseudoIDKey(input.SigningKey)
+    (if i.targetLocal then pseudoLocalTable i else pseudoRemoteTable i)
+  else defaultTable i
+
+def branchResult (i : PerformInviteIn) (p : Prepared) : PIOut :=
+  if i.pseudoIDs then (if i.targetLocal then pseudoLocalResult i p else pseudoRemoteResult i p)
+  else defaultResult i p
+
+/-- the complete guard table of PerformInvite, in the order of the code -/
+def piTable (i : PerformInviteIn) : List (Bool × PErr) := prepTable i ++ branchTable i
+
+/-- what PerformInvite returns when no row fails -/
+def piResult (i : PerformInviteIn) : PIOut := branchResult i (prepValue i)
+
+/-- Decision-table completeness: PerformInvite answers with the error (or panics at the site) of the first
+    failing row of `piTable`, and with `piResult` when no row fails. -/
+theorem performInvite_decision_table (i : PerformInviteIn) :
+    performInvite i = ffE (piTable i) (piResult i) := by
+  unfold performInvite piTable piResult
+  rw [piPrepare_table, ffE_append, ffE_value (a := ()) (prepValue i)]
+  cases ffE (prepTable i) () with
+  | error e => rfl
+  | ok u =>
+    simp only
+    unfold branchTable branchResult
+    cases hp : i.pseudoIDs
+    case false => simp only [Bool.false_eq_true, if_false]; exact piDefault_table i _
+    simp only [if_true]
+    cases hk : i.signingKeyOK
+    case false => simp only [Bool.not_false]; rw [ffE_cons_true rfl]; rfl
+    simp only [Bool.not_true]
+    rw [ffE_cons_false rfl]
+    simp only [Bool.false_eq_true, if_false]
+    cases ht : i.targetLocal
+    case true => simp only [if_true]; exact piPseudoLocal_table i _
+    simp only [Bool.false_eq_true, if_false]
+    exact piPseudoRemote_table i _
+
+/-! ### a returned event ⇒ every guard passed -/
+
+theorem rows_cons {ε : Type} {c : Bool} {e : ε} {t : List (Bool × ε)} (h : ∀ r ∈ (c, e) :: t, r.1 = false) :
+    c = false ∧ ∀ r ∈ t, r.1 = false :=
+  ⟨h (c, e) List.mem_cons_self, fun r hr => h r (List.mem_cons_of_mem _ hr)⟩
+
+theorem rows_append {ε : Type} {t1 t2 : List (Bool × ε)} (h : ∀ r ∈ t1 ++ t2, r.1 = false) :
+    (∀ r ∈ t1, r.1 = false) ∧ ∀ r ∈ t2, r.1 = false :=
+  ⟨fun r hr => h r (List.mem_append_left _ hr), fun r hr => h r (List.mem_append_right _ hr)⟩
+
+theorem checkAllowedRows_ok {i : PerformInviteIn} {e : EvFacts} (h : ∀ r ∈ checkAllowedRows i e, r.1 = false) :
+    piAuthorised i e = true := by
+  unfold checkAllowedRows at h
+  obtain ⟨h1, h⟩ := rows_cons h
+  obtain ⟨h2, _⟩ := rows_cons h
+  simp_all [piAuthorised]
+
+/-- what passing the rows of the preparation stage means -/
+theorem prepTable_ok {i : PerformInviteIn} (h : ∀ r ∈ prepTable i, r.1 = false) :
+    nilQuerier i = false ∧ i.ctxNil = false ∧ i.versionKnown = true ∧ piNotJoinedOK i = true ∧ piRoomOK i = true := by
+  unfold prepTable at h
+  obtain ⟨h1, h⟩ := rows_cons h
+  obtain ⟨h2, h⟩ := rows_cons h
+  obtain ⟨_, h⟩ := rows_cons h
+  obtain ⟨_, h⟩ := rows_cons h
+  obtain ⟨h5, h⟩ := rows_cons h
+  obtain ⟨h6, h⟩ := rows_cons h
+  obtain ⟨h7, h⟩ := rows_cons h
+  obtain ⟨h8, h⟩ := rows_cons h
+  obtain ⟨_, h⟩ := rows_cons h
+  obtain ⟨_, h⟩ := rows_cons h
+  obtain ⟨h11, h⟩ := rows_cons h
+  obtain ⟨h12, _⟩ := rows_cons h
+  refine ⟨h1, h2, by simpa using h5, ?_, ?_⟩
+  · unfold piNotJoinedOK
+    unfold senderIDFails at h6
+    unfold hasSenderID at h7 h8
+    cases hs : i.invitedSenderID with
+    | err => simp [hs] at h6
+    | ans s =>
+      cases s with
+      | none => rfl
+      | some sid =>
+        simp only [hs, Bool.true_and] at h7 h8
+        cases hc : i.curMembership with
+        | none => simp [hc] at h7
+        | some cur => simpa [hc] using h8
+  · unfold piRoomOK
+    unfold latestFails at h11
+    unfold latestOf at h12
+    cases hl : i.latest with
+    | err => simp [hl] at h11
+    | ans l => simpa [hl] using h12
+
+/-- PerformInvite returns an event only if: the room version is known; the invitee is not already joined;
+    the room exists; the event it returns passed `Allowed` against the state the StateQuerier supplied — and
+      * pseudo-ID rooms, remote invitee: SendInviteV3 answered with an event that IS the invite asked for
+        (m.room.member, state key present, membership "invite", the template's room and sender: /repo f453bb3);
+        that very event, and no other, then received the inviter's signature; with it its signatures verify;
+        the invitee's sender ID was stored; it is the event that was auth-checked and returned;
+      * pseudo-ID rooms, local invitee: the event was built from the template with the created sender ID as
+        state key, signed with the invitee's room key and the inviter's, and verifies;
+      * user-ID rooms: the event was built from the template with the invitee as state key and signed under
+        the inviter's and the invitee's server names; a local invitee gets that event, for a remote one
+        SendInvite succeeded and ITS answer is handed back as it is (not inspected, not signed). -/
+theorem performInvite_ok_implies_guards (i : PerformInviteIn) (o : PIOut) (h : performInvite i = .ok o) :
+    performInviteGuards i = true ∧ o = piResult i ∧
+    (i.pseudoIDs = true → i.targetLocal = false →
+      ∃ e, i.sendV3 = .ans (some e) ∧ isInviteFor i e = true ∧ i.verifyOK e = true ∧ i.storeOK = true ∧
+        piAuthorised i e = true ∧ o.source = .remoteV3 ∧ o.event = some e ∧ o.signedEvent = e ∧
+        o.sigs = [⟨i.origin, pseudoKeyID⟩]) ∧
+    (i.pseudoIDs = true → i.targetLocal = true →
+      ∃ sid, i.createdSenderID = some sid ∧ i.buildOK = true ∧ i.verifyOK (builtEvent i sid) = true ∧
+        piAuthorised i (builtEvent i sid) = true ∧ o.source = .builtLocal ∧ o.event = some (builtEvent i sid) ∧
+        o.signedEvent = builtEvent i sid ∧ o.sigs = [⟨sid, pseudoKeyID⟩, ⟨i.origin, pseudoKeyID⟩]) ∧
+    (i.pseudoIDs = false →
+      i.buildOK = true ∧ piAuthorised i (builtEvent i i.inviteeUserID) = true ∧
+      o.signedEvent = builtEvent i i.inviteeUserID ∧
+      o.sigs = [⟨i.inviterDomain, i.keyID⟩, ⟨i.inviteeDomain, i.keyID⟩] ∧
+      (i.targetLocal = true → o.source = .builtLocal ∧ o.event = some (builtEvent i i.inviteeUserID)) ∧
+      (i.targetLocal = false → o.source = .remoteV2 ∧ i.sendV2 = .ans o.event)) := by
+  rw [performInvite_decision_table] at h
+  obtain ⟨hrows, ho⟩ := ffE_ok h
+  obtain ⟨hprep, hbr⟩ := rows_append hrows
+  obtain ⟨_, _, hver, hnj, hroom⟩ := prepTable_ok hprep
+  subst ho
+  unfold branchTable at hbr
+  unfold performInviteGuards piResult branchResult
+  rw [hver, hnj, hroom]
+  cases hp : i.pseudoIDs
+  · -- user-ID room versions
+    simp only [hp, Bool.false_eq_true, if_false] at hbr ⊢
+    unfold defaultTable at hbr
+    obtain ⟨_, hbr⟩ := rows_cons hbr
+    obtain ⟨_, hbr⟩ := rows_cons hbr
+    obtain ⟨hb, hbr⟩ := rows_cons hbr
+    obtain ⟨hal, hfed⟩ := rows_append hbr
+    have hauth := checkAllowedRows_ok hal
+    have hb' : i.buildOK = true := by simpa using hb
+    cases ht : i.targetLocal
+    · simp only [ht, Bool.false_eq_true, if_false] at hfed
+      obtain ⟨_, hfed⟩ := rows_cons hfed
+      obtain ⟨hs2, _⟩ := rows_cons hfed
+      unfold sendV2Fails at hs2
+      cases hs : i.sendV2 with
+      | err => simp [hs] at hs2
+      | ans r => simp [defaultResult, ht, hb', hauth, mkOut, defaultSigs, v2Of, hs]
+    · simp [defaultResult, ht, hb', hauth, mkOut, defaultSigs]
+  · simp only [hp, if_true] at hbr ⊢
+    obtain ⟨_, hbr⟩ := rows_cons hbr
+    cases ht : i.targetLocal
+    · -- pseudo-ID rooms, remote invitee
+      simp only [ht, Bool.false_eq_true, if_false] at hbr ⊢
+      unfold pseudoRemoteTable at hbr
+      obtain ⟨_, hbr⟩ := rows_cons hbr
+      obtain ⟨hs3, hbr⟩ := rows_cons hbr
+      obtain ⟨hv3, hbr⟩ := rows_append hbr
+      obtain ⟨hvf, hbr⟩ := rows_cons hbr
+      obtain ⟨_, hbr⟩ := rows_cons hbr
+      obtain ⟨hst, hal⟩ := rows_cons hbr
+      have hauth := checkAllowedRows_ok hal
+      unfold v3Rows at hv3
+      obtain ⟨hn, hv3⟩ := rows_cons hv3
+      obtain ⟨hty, hv3⟩ := rows_cons hv3
+      obtain ⟨hm, hv3⟩ := rows_cons hv3
+      obtain ⟨hrs, _⟩ := rows_cons hv3
+      unfold sendV3Fails at hs3
+      cases hs : i.sendV3 with
+      | err => simp [hs] at hs3
+      | ans r =>
+        cases r with
+        | none => simp [v3Of, hs] at hn
+        | some e =>
+          have he : v3Event i = e := by simp [v3Event, v3Of, hs]
+          rw [he] at hvf hauth hty hm hrs
+          have hinv : isInviteFor i e = true := by
+            unfold isInviteFor
+            simp only [Bool.or_eq_false_iff, bne_eq_false_iff_eq, Option.isNone_eq_false_iff] at hty hm hrs
+            simp [hty.1, hm, hrs.1, hrs.2, Option.isSome_iff_ne_none.mpr (Option.isSome_iff_ne_none.mp hty.2)]
+          have hvf' : i.verifyOK e = true := by simpa using hvf
+          have hst' : i.storeOK = true := by simpa using hst
+          simp [pseudoRemoteResult, mkOut, he, hinv, hvf', hst', hauth]
+    · -- pseudo-ID rooms, local invitee
+      simp only [ht, if_true] at hbr ⊢
+      unfold pseudoLocalTable at hbr
+      obtain ⟨hc, hbr⟩ := rows_cons hbr
+      obtain ⟨hb, hbr⟩ := rows_cons hbr
+      obtain ⟨hvf, hal⟩ := rows_cons hbr
+      have hauth := checkAllowedRows_ok hal
+      cases hcs : i.createdSenderID with
+      | none => simp [hcs] at hc
+      | some sid =>
+        have hco : createdOf i = sid := by simp [createdOf, hcs]
+        rw [hco] at hvf hauth
+        have hb' : i.buildOK = true := by simpa using hb
+        have hvf' : i.verifyOK (builtEvent i sid) = true := by simpa using hvf
+        simp [pseudoLocalResult, mkOut, hco, hb', hvf', hauth]
+
+/-! ### no answer of the remote server (or of a querier) makes PerformInvite panic -/
+
+/-- no row of the table that can fire is a panic row -/
+def NoPanicRows (t : List (Bool × PErr)) : Prop := ∀ r ∈ t, r.1 = true → ∀ s, r.2 ≠ .panic s
+
+theorem np_nil : NoPanicRows [] := by intro r hr; cases hr
+
+theorem np_cons_err {c : Bool} {e : HErr} {t : List (Bool × PErr)} (h : NoPanicRows t) : NoPanicRows ((c, .err e) :: t) := by
+  intro r hr hc s
+  cases hr with
+  | head => intro h'; cases h'
+  | tail _ hr' => exact h r hr' hc s
+
+theorem np_cons_false {c : Bool} {e : PErr} {t : List (Bool × PErr)} (hc : c = false) (h : NoPanicRows t) :
+    NoPanicRows ((c, e) :: t) := by
+  intro r hr hc' s
+  cases hr with
+  | head => simp [hc] at hc'
+  | tail _ hr' => exact h r hr' hc' s
+
+theorem np_append {t1 t2 : List (Bool × PErr)} (h1 : NoPanicRows t1) (h2 : NoPanicRows t2) : NoPanicRows (t1 ++ t2) := by
+  intro r hr
+  rcases List.mem_append.mp hr with h | h
+  · exact h1 r h
+  · exact h2 r h
+
+theorem ffE_no_panic {α : Type} {t : List (Bool × PErr)} {out : α} (h : NoPanicRows t) (s : String) :
+    ffE t out ≠ .error (.panic s) := by
+  intro he
+  obtain ⟨r, hr, hc, hre⟩ := ffE_error he
+  exact h r hr hc s hre
+
+theorem np_stateRows {l : List (Option StateEv)} (h : l.all (·.isSome) = true) : NoPanicRows (stateRows l) := by
+  intro r hr _ s
+  unfold stateRows at hr
+  obtain ⟨e, he, hre⟩ := List.mem_map.mp hr
+  have := List.all_eq_true.mp h e he
+  cases e with
+  | none => simp at this
+  | some ev => subst hre; intro h'; cases h'
+
+theorem np_checkAllowed (i : PerformInviteIn) (e : EvFacts) : NoPanicRows (checkAllowedRows i e) :=
+  np_cons_err (np_cons_err np_nil)
+
+/-- With the caller's side of the contract kept (`piContractOK`: non-nil queriers, context, store callback and
+    federation client, a well-formed signing key, no nil PDU from the EventQuerier), PerformInvite never panics:
+    whatever SendInviteV3 / SendInvite answer — an error, a nil PDU, an event of another type, without state
+    key, with another membership, for another room or sender, with signatures that do not verify — and
+    whatever the queriers answer, the outcome is an error value or a result. -/
+theorem performInvite_no_panic (i : PerformInviteIn) (hc : piContractOK i = true) (site : String) :
+    performInvite i ≠ .error (.panic site) := by
+  rw [performInvite_decision_table]
+  apply ffE_no_panic
+  simp only [piContractOK, Bool.and_eq_true, Bool.not_eq_true'] at hc
+  obtain ⟨⟨⟨⟨⟨⟨⟨⟨⟨⟨h1, h2⟩, h3⟩, h4⟩, h5⟩, h6⟩, hctx⟩, hstore⟩, hfed⟩, hkey⟩, hst⟩ := hc
+  have hkey' : (!i.signingKeyOK) = false := by simp [hkey]
+  unfold piTable
+  apply np_append
+  · unfold prepTable
+    refine np_cons_false (by simp [nilQuerier, h1, h2, h3, h4, h5, h6]) (np_cons_false hctx ?_)
+    refine np_cons_err (np_cons_err (np_cons_err (np_cons_err (np_cons_err (np_cons_err (np_cons_err (np_cons_err
+      (np_cons_err (np_cons_err ?_)))))))))
+    unfold latestOf
+    cases hl : i.latest with
+    | err => exact np_nil
+    | ans l => rw [hl] at hst; exact np_stateRows hst
+  · unfold branchTable
+    cases i.pseudoIDs
+    · simp only [Bool.false_eq_true, if_false]
+      unfold defaultTable
+      refine np_cons_err (np_cons_false hkey' (np_cons_err (np_append (np_checkAllowed _ _) ?_)))
+      cases i.targetLocal
+      · simp only [Bool.false_eq_true, if_false]
+        exact np_cons_false hfed (np_cons_err np_nil)
+      · exact np_nil
+    · simp only [if_true]
+      refine np_cons_false hkey' ?_
+      cases i.targetLocal
+      · simp only [Bool.false_eq_true, if_false]
+        unfold pseudoRemoteTable v3Rows
+        refine np_cons_false hfed (np_cons_err (np_append (np_cons_err (np_cons_err (np_cons_err (np_cons_err np_nil)))) ?_))
+        exact np_cons_err (np_cons_false hstore (np_cons_err (np_checkAllowed _ _)))
+      · simp only [if_true]
+        unfold pseudoLocalTable
+        exact np_cons_err (np_cons_err (np_cons_err (np_checkAllowed _ _)))
+
+/-! ### non-vacuity and the inputs of /repo f453bb3 -/
+
+def inviteFacts : EvFacts :=
+  { type := b!"m.room.member", stateKey := some b!"INVITEEKEY", membership := some b!"invite", roomID := b!"!r:hs1", senderID := b!"INVITERKEY" }
+
+/-- pseudo-ID room, remote invitee, everything in order -/
+def piWitness : PerformInviteIn := {
+  membershipQuerierNil := false, stateQuerierNil := false, userIDQuerierNil := false, senderIDQuerierNil := false,
+  senderIDCreatorNil := false, eventQuerierNil := false, ctxNil := false, storeSenderIDNil := false, fedClientNil := false,
+  signingKeyOK := true, versionKnown := true, pseudoIDs := true, domainless := false, targetLocal := false,
+  inviterDomain := b!"hs1", inviteeUserID := b!"@zed:hs2", inviteeDomain := b!"hs2", keyID := b!"ed25519:k1", origin := b!"INVITERKEY",
+  tType := b!"m.room.member", tRoomID := b!"!r:hs1", tSenderID := b!"INVITERKEY", tMembership := some b!"invite",
+  needed := some { create := true, powerLevels := true, joinRules := true, member := [b!"INVITERKEY"] },
+  strippedGiven := 0, stateQuery := .ans 2, unsignedOK := true, invitedSenderID := .ans none, curMembership := none,
+  latest := .ans { roomExists := true, depth := 7, prevEventIDs := [b!"$p"],
+                   stateEvents := [some ⟨b!"m.room.create", some [], b!"$c"⟩, some ⟨b!"m.room.power_levels", some [], b!"$pl"⟩,
+                                   some ⟨b!"m.room.member", some b!"INVITERKEY", b!"$m"⟩] },
+  authProviderOK := true, allowed := fun _ => true, buildReachesSign := true, buildOK := true, createdSenderID := some b!"LOCALKEY",
+  verifyOK := fun _ => true, sendV3 := .ans (some inviteFacts), storeOK := true, sendV2 := .err }
+
+def piOutcome (r : PR PIOut) : String :=
+  match r with
+  | .ok o => (match o.source with | .builtLocal => "built" | .remoteV2 => "v2" | .remoteV3 => "v3") ++ ":" ++ toString o.sigs.length
+      ++ ":" ++ toString o.authEvents.length
+  | .error (.err (.matrix c)) => c
+  | .error (.err .internal) => "internal"
+  | .error (.err .other) => "other"
+  | .error (.panic s) => "panic:" ++ s
+
+example : piOutcome (performInvite piWitness) = "v3:1:3" := by decide
+example : performInviteGuards piWitness = true := by decide
+example : piContractOK piWitness = true := by decide
+example : piOutcome (performInvite { piWitness with targetLocal := true }) = "built:2:3" := by decide
+example : piOutcome (performInvite { piWitness with pseudoIDs := false, sendV2 := .ans none }) = "v2:2:3" := by decide
+/-- what the remote could answer before f453bb3 to crash the process (and obtain the inviter's signature first):
+    an event without state key, of another type; a nil PDU.  Now refused. -/
+example : piOutcome (performInvite { piWitness with sendV3 := .ans (some { inviteFacts with type := b!"m.room.message", stateKey := none }) })
+    = "M_FORBIDDEN" := by decide
+example : piOutcome (performInvite { piWitness with sendV3 := .ans none }) = "M_FORBIDDEN" := by decide
+example : piOutcome (performInvite { piWitness with sendV3 := .ans (some { inviteFacts with membership := some b!"leave" }) })
+    = "M_FORBIDDEN" := by decide
+example : piOutcome (performInvite { piWitness with sendV3 := .ans (some { inviteFacts with roomID := b!"!elsewhere:hs1" }) })
+    = "M_FORBIDDEN" := by decide
+/-- the unchecked callback: a nil StoreSenderIDFromPublicID is a panic site (outside `piContractOK`) -/
+example : piOutcome (performInvite { piWitness with storeSenderIDNil := true }) = "panic:" ++ siteStore := by decide
+
+/-! ## HandleSendJoin, room version org.matrix.msc4014 -/
+
+/-- In pseudo-ID rooms HandleSendJoin accepts a join only if — besides the guards of `sendJoin_ok_implies_guards`,
+    with the event's own signature checked against the sender's key — its mxid_mapping is validly signed by
+    the user's server and was stored. -/
+theorem sendJoinPseudo_ok_implies_guards (i : SendJoinPseudoIn) (o : SendJoinOut) (h : handleSendJoinPseudo i = .ok o) :
+    sendJoinPseudoGuards i = true ∧ i.selfVerify = true ∧
+    o.sig = { signer := i.base.localServer, keyID := i.base.keyID } ∧ o.alreadyJoined = (i.base.curMembership == some b!"join") := by
+  unfold handleSendJoinPseudo at h
+  split at h
+  · cases h
+  split at h
+  · cases h
+  split at h
+  · cases h
+  split at h
+  · cases h
+  split at h
+  · cases h
+  · cases h
+  · rename_i hmap
+    split at h
+    · cases h
+    split at h
+    · cases h
+    · split at h
+      · cases h
+      split at h
+      · cases h
+      split at h
+      · cases h
+      obtain ⟨hm, hv, ht⟩ := sendJoinEventChecks_ok h
+      obtain ⟨_, hb, hcd, hvia, hs, ha⟩ := sendJoinTail_ok ht
+      rw [viaLocal_iff] at hvia
+      have hsv : i.selfVerify = true := by
+        cases hsv : i.selfVerify
+        · simp [pseudoBase, pseudoVerify, hsv] at hv
+        · rfl
+      refine ⟨?_, hsv, hs, ha⟩
+      unfold sendJoinPseudoGuards sendJoinGuards
+      simp_all [pseudoVerify, pseudoBase]
+
+def sendJoinPseudoTable (i : SendJoinPseudoIn) : List (Bool × HErr) := [
+  (!i.base.versionKnown, eUnsupported),
+  (!i.base.parses, eBadJSON),
+  (i.base.stateKey.isNone || i.base.stateKey == some [], eBadJSON),
+  (i.base.stateKey != some i.base.sender, eBadJSON),
+  (i.mapping == .missing, eBadJSON),                         -- getMXIDMapping
+  (i.mapping == .invalid, eForbidden),                       -- validateMXIDMappingSignatures
+  (!i.storeOK, .other),                                      -- StoreSenderIDFromPublicID
+  (i.base.senderDomain.isNone, eForbidden),
+  (i.base.senderDomain != some i.base.requestOrigin, eForbidden),
+  (i.base.eventRoomID != i.base.roomID, eBadJSON),
+  (i.base.eventID != i.base.reqEventID, eBadJSON),
+  (i.base.membership.isNone, eBadJSON),
+  (i.base.membership != some b!"join", eBadJSON),
+  (!i.selfVerify, eForbidden),                               -- JSONVerifierSelf against the sender's key
+  (i.base.curMembership.isNone, .internal),
+  (i.base.curMembership == some b!"ban", eForbidden),
+  (!i.base.contentDecodes, eBadJSON),
+  (!(i.base.authorisedVia.isEmpty || i.base.userID i.base.authorisedVia == some i.base.localServer), eBadJSON)]
+
+theorem sendJoinPseudo_decision_table (i : SendJoinPseudoIn) :
+    handleSendJoinPseudo i = firstFailing (sendJoinPseudoTable i)
+      { alreadyJoined := i.base.curMembership == some b!"join", sig := { signer := i.base.localServer, keyID := i.base.keyID } } := by
+  have ht := sendJoinEventChecks_table (pseudoBase i) _ _ (sendJoinTail_table (pseudoBase i))
+  unfold handleSendJoinPseudo sendJoinPseudoTable
+  generalize hpb : sendJoinEventChecks (pseudoBase i) = X at *
+  cases h1 : (!i.base.versionKnown)
+  case true => simp [firstFailing]
+  cases h2 : (!i.base.parses)
+  case true => simp [firstFailing]
+  cases h3 : (i.base.stateKey.isNone || i.base.stateKey == some [])
+  case true => simp [firstFailing]
+  cases h4 : (i.base.stateKey != some i.base.sender)
+  case true => simp [firstFailing]
+  cases hm : i.mapping with
+  | missing => simp [firstFailing]
+  | invalid => simp [firstFailing]
+  | valid =>
+    cases hst : i.storeOK
+    case false => simp [firstFailing]
+    cases hd : i.base.senderDomain with
+    | none => simp [firstFailing]
+    | some d =>
+      have hs : (some d != some i.base.requestOrigin) = (d != i.base.requestOrigin) := by simp [bne]
+      cases h5 : (d != i.base.requestOrigin)
+      case true => simp [firstFailing, hs, h5]
+      cases h6 : (i.base.eventRoomID != i.base.roomID)
+      case true => simp [firstFailing, hs, h5]
+      cases h7 : (i.base.eventID != i.base.reqEventID)
+      case true => simp [firstFailing, hs, h5]
+      rw [ht]
+      have e1 : (VerifyAns.bad == VerifyAns.callErr) = false := rfl
+      have e2 : (VerifyAns.good == VerifyAns.callErr) = false := rfl
+      have e3 : (VerifyAns.good == VerifyAns.bad) = false := rfl
+      cases hsv : i.selfVerify <;> cases hmm : i.base.membership.isNone <;>
+        cases hmj : (i.base.membership != some b!"join") <;>
+        simp [firstFailing, hs, h5, pseudoBase, pseudoVerify, hsv, hmm, hmj, e1, e2, e3]
+
+def sendJoinPseudoWitness : SendJoinPseudoIn :=
+  { base := { sendJoinWitness with senderDomain := some b!"hs2" }, mapping := .valid, storeOK := true, selfVerify := true }
+
+example : handleSendJoinPseudo sendJoinPseudoWitness = .ok { alreadyJoined := false, sig := ⟨b!"hs1", b!"ed25519:k1"⟩ } := by rfl
+example : handleSendJoinPseudo { sendJoinPseudoWitness with mapping := .invalid } = .error eForbidden := by rfl
+example : handleSendJoinPseudo { sendJoinPseudoWitness with selfVerify := false } = .error eForbidden := by rfl
 
 end V.C15
